@@ -302,6 +302,10 @@ LEAF_POOL2 = LEAF_POOL + [("bq", "`2020-01-01`"), ("dq", '"it\'s"'), ("sq", "'sa
                           ("dq", '" lead and trail "'),
                           # back-quoted (date / time) literals are opaque too: quotes and parentheses inside them are text
                           ("bq", "`O'Brien`"), ("bq", "`2010-01-01 (UTC`"), ("bq", '`say "hi`'), ("bq", "`a)`"),
+                          # operands that merely CONTAIN a word the transformer treats specially elsewhere (booleans, keywords, operators)
+                          ("dq", '"True"'), ("sq", "'False'"), ("bind", "[isTrue]"), ("bq", "`False`"), ("dq", '"IsTrue or False"'),
+                          ("sq", "'a AND b'"), ("dq", '"x OR y"'), ("dq", '"NOT z"'), ("bind", "[ORDER]"), ("bind", "[band]"), ("sq", "'a && b || !c'"),
+                          ("dq", '"END"'), ("sq", "'LAYER'"), ("dq", '"eq"'), ("sq", "'IN'"),
                           # a string that looks like a colour
                           ("dq", '"#ff0000"'), ("sq", "'#ABC'")]
 FUNCS = ["tostring", "round", "length", "upper", "area", "fromtext", "commify"]
